@@ -465,4 +465,9 @@ def run(ctx):
     check_count(ctx)
     check_own(ctx)
     check_global_units(ctx)
+    from .C07 import _Relabel
+    from .C08 import check_lock
+    ctx.rule("C18-DATA", "the per-row survey labels the source count is taken from are built from the whole key of each source (np.full(len(d), k) in the default dtype, or the "
+                         "equivalent list form): truncated or re-typed labels merge sources and defeat the count check (shared with C08-LOCK).")
+    check_lock(_Relabel(ctx, {"C08-LOCK": "C18-DATA"}))
     ctx.assume("pymc / astropy raise for unit-less or non-tensor objects inside library calls (exception types inside libraries are not decided)")
